@@ -129,6 +129,9 @@ pub struct State {
     /// binaries whose pid lookup failed *by injection* while their process was alive and has stayed
     /// alive since (used only to attribute a later discrepancy to that root cause)
     pub lookup_failed_while_alive: BTreeSet<PathBuf>,
+    /// same, but the failing lookup was the one `ServiceManager::start` makes right after it launched
+    /// the process in the same operation (the launch cannot be undone and nothing gets recorded)
+    pub lookup_failed_post_launch: BTreeSet<PathBuf>,
     /// kinds of the calls made by each operation (key = op index), in call order
     pub calls_per_op: BTreeMap<usize, Vec<CallKind>>,
 }
@@ -173,6 +176,7 @@ impl State {
 
     fn kill(&mut self, path: &Path) -> bool {
         self.lookup_failed_while_alive.remove(path);
+        self.lookup_failed_post_launch.remove(path);
         self.procs.remove(path).is_some()
     }
 
@@ -279,7 +283,12 @@ impl ServiceControl for FakeOs {
             .is_some()
         {
             if st.procs.contains_key(path) {
-                st.lookup_failed_while_alive.insert(path.to_path_buf());
+                let launched_in_this_op = st.calls_per_op.get(&st.cur_op).map(|c| c.contains(&CallKind::Start)).unwrap_or(false);
+                if launched_in_this_op {
+                    st.lookup_failed_post_launch.insert(path.to_path_buf());
+                } else {
+                    st.lookup_failed_while_alive.insert(path.to_path_buf());
+                }
             }
             // deliberately *not* ServiceProcessNotFound: the lookup failed, the OS did not say
             // "no such process"
